@@ -4673,7 +4673,13 @@ impl GlobalInferenceCtx<'_> {
                             }
                         }
                         Expr::InlineParam { comptime_idx, .. } => 'param: {
-                            let param_ty = self.inline_comptime_tys[*comptime_idx as usize];
+                            // the header this parameter belongs to was never inferred as a
+                            // header (it sits in malformed code that was already reported)
+                            let Some(&param_ty) =
+                                self.inline_comptime_tys.get(*comptime_idx as usize)
+                            else {
+                                break 'param Ty::Unknown.into();
+                            };
 
                             if !self.expect_match(
                                 param_ty,
